@@ -24,6 +24,5 @@ func VP_C02_postfix() {
 		t.kinds = append(t.kinds, k)
 		t.lb = append(t.lb, vpBool("lb"))
 	}
-	vpAssume(!vpDontCare(t))
 	vpCompareParsers(t, true, "C02/postfix")
 }
